@@ -37,6 +37,10 @@ fn pairs(v: Option<&Value>) -> Vec<(String, String)> {
         .unwrap_or_default()
 }
 
+fn r_ok(r: &Result<Value, String>) -> Option<Value> {
+    r.as_ref().ok().cloned()
+}
+
 pub fn run_job(job: &Value) -> Value {
     let files = pairs(job.get("files"));
     let scripts = pairs(job.get("scripts"));
@@ -46,6 +50,42 @@ pub fn run_job(job: &Value) -> Value {
     let run = tmpl::compile(&files, &scripts, want, 0);
     let mut r = tmpl::run_to_json(&run);
     r["id"] = job.get("id").cloned().unwrap_or(Value::Null);
+    if has("deps") {
+        // dependency queries of the group API (on a group built the same way)
+        let mut group = glass_easel_template_compiler::TmplGroup::new();
+        let dr = guarded(|| {
+            for (p, s) in &files {
+                group.add_tmpl(p, s);
+            }
+            for (p, s) in &scripts {
+                group.add_script(p, s);
+            }
+            let mut deps = serde_json::Map::new();
+            for (p, _) in &files {
+                let direct: Vec<String> = group.direct_dependencies(p).map(|x| x.collect()).unwrap_or_default();
+                let script: Vec<String> = group.script_dependencies(p).map(|x| x.collect()).unwrap_or_default();
+                deps.insert(p.clone(), json!({"direct": direct, "scripts": script}));
+            }
+            Value::Object(deps)
+        });
+        r["deps"] = match r_ok(&dr) { Some(v) => v, None => json!({"panic": true}) };
+    }
+    if let Some(paths) = job.get("paths").and_then(|x| x.as_array()) {
+        // probes of the crate-private path helpers (hook H3)
+        let out: Vec<Value> = paths
+            .iter()
+            .map(|p| {
+                let base = p[0].as_str().unwrap_or("");
+                let rel = p[1].as_str().unwrap_or("");
+                json!({
+                    "resolve": guarded(|| glass_easel_template_compiler::verif_hooks::resolve(base, rel)).ok(),
+                    "normalize_rel": guarded(|| glass_easel_template_compiler::verif_hooks::normalize(rel)).ok(),
+                    "normalize_base": guarded(|| glass_easel_template_compiler::verif_hooks::normalize(base)).ok(),
+                })
+            })
+            .collect();
+        r["paths"] = Value::Array(out);
+    }
     if has("ast") {
         let mut asts = serde_json::Map::new();
         for (p, s) in &files {
